@@ -2,29 +2,34 @@
 # Regenerates the overlay from /repo's working tree and builds check12 (plain and -race).
 set -e
 . /verif/scripts/env.sh
-OV=/verif/out/overlay
+REPO=${VERIF_REPO:-/repo}
+TAG=$(echo "$REPO" | tr '/' '_')
+OV=/verif/out/overlay$TAG
+BINSUF=""
+[ "$REPO" = "/repo" ] || BINSUF="$TAG"
 rm -rf $OV; mkdir -p $OV
 cd /verif/mc
-cp /repo/go.sum go.sum
+MODFLAG=${VERIF_MODFLAG:-}
+[ "$REPO" = "/repo" ] && cp /repo/go.sum go.sum
 $GO build -o /verif/out/bin/chanrewrite ./cmd/chanrewrite
 VS=github.com/RoaringBitmap/roaring/v2/vsched
 FILES="parallel.go roaring64/parallel64.go roaring64/bsi64.go BitSliceIndexing/bsi.go internal/pools.go"
 for f in $FILES; do
   mkdir -p $OV/$(dirname $f)
-  /verif/out/bin/chanrewrite /repo/$f $OV/$f $VS
+  /verif/out/bin/chanrewrite $REPO/$f $OV/$f $VS
 done
 {
   echo '{"Replace": {'
-  for f in $FILES; do echo "  \"/repo/$f\": \"$OV/$f\","; done
+  for f in $FILES; do echo "  \"$REPO/$f\": \"$OV/$f\","; done
   first=1
   for g in /verif/mc/vsched/*.go; do
     [ $first = 1 ] || echo ","
     first=0
-    printf '  "/repo/vsched/%s": "%s"' $(basename $g) $g
+    printf '  "%s/vsched/%s": "%s"' $REPO $(basename $g) $g
   done
   echo
   echo '}}'
 } > $OV/overlay.json
-$GO build -overlay $OV/overlay.json -tags "verif c12" -o /verif/out/bin/check12 ./cmd/check12
-$GO build -race -overlay $OV/overlay.json -tags "verif c12" -o /verif/out/bin/check12race ./cmd/check12
+$GO build $MODFLAG -overlay $OV/overlay.json -tags "verif c12" -o /verif/out/bin/check12$BINSUF ./cmd/check12
+$GO build $MODFLAG -race -overlay $OV/overlay.json -tags "verif c12" -o /verif/out/bin/check12race$BINSUF ./cmd/check12
 echo c12 build ok
